@@ -20,7 +20,9 @@ from harness import scen, xmlabs
 from harness.gallina import glist, gstr
 
 ID = "C05"
-COQ_TARGETS = ["XmiLoad.vo", "XmiLoadProofs.vo", "XmiLoadProofs2.vo", "CorrC05.vo", "Props/C05.vo"]
+COQ_TARGETS = ["XmiLoad.vo", "XmiLoadProofs.vo", "XmiLoadProofs2.vo", "CorrC05.vo",
+               "JsonDoc.vo", "Json.vo", "JsonProofs.vo", "JsonProofs2.vo", "JsonLoadProofs.vo", "JsonLex.vo", "PropsJson.vo",
+               "Props/C05.vo"]
 PROPS_FILE = "Props/C05.v"
 CORR_IMPORTS = "Base Heap Schema Canon XmiDoc XmiLoad CorrC05"
 ENTRY = "cassis.xmi.load_cas_from_xmi / CasXmiDeserializer.deserialize"
@@ -709,7 +711,9 @@ MANIFEST = {
                   "inside Coq on presentation and content variants of generated documents and of the repository fixtures.",
     "level_note": "Trusted: Coq kernel + vm_compute; hand-written models XmiLoad.v / XmiDoc.v; xml.etree for bytes <-> abstract "
                   "documents (namespace resolution, escaping, iterparse order are below the model); float(str) as a table per "
-                  "case; the JSON half of C05 is a separate check.",
+                  "case. The JSON half of C05 runs as sub-suite C05json (harness/props/C05json.py, CorrC05json.v); its theorems "
+                  "C05_json_* (proved in JsonProofs*.v / JsonLoadProofs.v / JsonLex.v, collected in PropsJson.v) are in the same "
+                  "Props file coq/Props/C05.v.",
     "technique": "Coq proof over an executable Gallina model + in-Coq behavioural correspondence + direct oracle (variant vs base)",
     "design_ref": "DESIGN.md section 5, C05",
 }
